@@ -58,6 +58,7 @@ func main() {
 		{"PipeGen.v", genPipe},
 		{"IndexTopGen.v", genIndexTop},
 		{"TmsJsonGen.v", genTmsJson},
+		{"TmsLoadGen.v", genTmsLoad},
 		{"SnapTopGen.v", genSnapTop},
 		{"RingHelpersGen.v", genRingHelpers},
 		{"QuadTreeGen.v", genQuadTree},
